@@ -82,3 +82,14 @@ pub fn guard<T, F: FnOnce() -> T + std::panic::UnwindSafe>(f: F) -> Result<T, St
         }
     }
 }
+
+/// run f on a helper thread; a tiny generated case that runs longer than `secs` seconds (normal: microseconds)
+/// is reported as divergence.  The helper thread cannot be stopped: the caller prints its report and exits.
+pub fn guard_timeout<T: Send + 'static, F: FnOnce() -> T + Send + std::panic::UnwindSafe + 'static>(f: F, secs: u64) -> Result<T, String> {
+    let (tx, rx) = std::sync::mpsc::channel();
+    std::thread::Builder::new().stack_size(64 << 20).spawn(move || { let r = guard(f); let _ = tx.send(r); }).unwrap();
+    match rx.recv_timeout(std::time::Duration::from_secs(secs)) {
+        Ok(r) => r,
+        Err(_) => Err("TIMEOUT".to_string()),
+    }
+}
